@@ -210,3 +210,10 @@ Proof.
       * rewrite Forall_forall in Hb. apply Hb. exact Hz.
       * subst. apply Hall. left. reflexivity.
 Qed.
+
+Lemma NoDup_app_intro_t {A} (l1 l2 : list A) : NoDup l1 -> NoDup l2 -> (forall x, In x l1 -> In x l2 -> False) -> NoDup (l1 ++ l2).
+Proof.
+  induction l1 as [|x tl IH]; intros H1 H2 D; cbn; [exact H2|]. inversion H1; subst. constructor.
+  - intros X. apply in_app_or in X. destruct X as [X|X]; [tauto|]. apply (D x); [left; reflexivity|exact X].
+  - apply IH; try assumption. intros y Y1 Y2. apply (D y); [right; exact Y1|exact Y2].
+Qed.
